@@ -46,14 +46,17 @@ def analyse(f, types, state_ids=None, inv=None, post=None, inv_hard=None, post_h
     the family, assumed at entry and after calls into the family (inv_hard: the same, inferred without type ranges,
     for the runs a report may rest on)."""
     kw = dict(state_ids=state_ids, other_ptrs=other, state_rec=rec)
-    DS = fx.FxAnalyzer(f, types, soft=True, entry_fields=inv, callee_post=post, **kw).run()
+    fs_, fh_ = (inv or {}).get("#facts", ()), (inv_hard or {}).get("#facts", ())
+    inv = {k: v for k, v in (inv or {}).items() if k != "#facts"}
+    inv_hard = {k: v for k, v in (inv_hard or {}).items() if k != "#facts"}
+    DS = fx.FxAnalyzer(f, types, soft=True, entry_fields=inv, callee_post=post, entry_facts=fs_, **kw).run()
     ds = _verdicts(DS)
     out = {}
     if all(v == "inside" for v in ds.values()):
         return {k: ("inside", None) for k in ds}, DS.truncated
-    DH = fx.FxAnalyzer(f, types, soft=False, entry_fields=inv_hard, callee_post=post_hard, **kw).run()
-    KH = fx.FxAnalyzer(f, types, soft=False, entry_fields=inv_hard, callee_post=post_hard, **kw).run_classic()
-    KS = fx.FxAnalyzer(f, types, soft=True, entry_fields=inv, callee_post=post, **kw).run_classic()
+    DH = fx.FxAnalyzer(f, types, soft=False, entry_fields=inv_hard, callee_post=post_hard, entry_facts=fh_, **kw).run()
+    KH = fx.FxAnalyzer(f, types, soft=False, entry_fields=inv_hard, callee_post=post_hard, entry_facts=fh_, **kw).run_classic()
+    KS = fx.FxAnalyzer(f, types, soft=True, entry_fields=inv, callee_post=post, entry_facts=fs_, **kw).run_classic()
     dh, kh, ks = _verdicts(DH), _verdicts(KH), _verdicts(KS)
     for k in ds:
         if ds[k] == "inside" or ks.get(k) == "inside":
@@ -103,11 +106,36 @@ def field_writers(prog):
     return out
 
 
+def relation_candidates(members, fields):
+    """pairs of fields that the family's code subtracts or compares: candidates  A - B <= -1  and  A - B <= 0"""
+    pairs = set()
+    for f, ids in members:
+        for n in ir.walk(f.body):
+            if n.get("k") == "Bin" and n.get("op") in ("-", "<", "<=", ">", ">="):
+                fs = []
+                for side in (n["x"], n["y"]):
+                    m = ir.strip(side)
+                    while isinstance(m, dict) and m.get("k") == "Paren":
+                        m = ir.strip(m["e"])
+                    b_ = ir.strip(m.get("b")) if isinstance(m, dict) and m.get("k") == "Member" and m.get("arrow") else None
+                    if isinstance(b_, dict) and b_.get("k") == "Ref" and b_.get("id") in ids and m["f"] in fields:
+                        fs.append(m["f"])
+                if len(fs) == 2 and fs[0] != fs[1]:
+                    pairs.add(tuple(sorted(fs)))
+    out = []
+    for a_, b_ in sorted(pairs):
+        for x, y in ((a_, b_), (b_, a_)):
+            for c in (-1, 0):
+                out.append((((x, 1), (y, -1)), c))
+    return tuple(out)
+
+
 def infer_invariant(members, types, rec, writers=None, soft=True):
-    """interval invariant of the integer fields of one state family, by assume/guarantee over its functions:
+    """invariant of the integer fields of one state family, by assume/guarantee over its functions:
     base = the functions that set a field on every path whatever it was (the Start functions); step = every function,
-    entered with the fields inside the invariant and with its family callees guaranteeing it, leaves them inside.
-    Returns ({field: (lo, hi)}, rounds); a field without a base or without a stable bound is absent."""
+    entered with the fields inside the invariant and with its family callees guaranteeing it, leaves them inside at
+    every exit and at every call into the family.  Intervals per field, plus relations  A - B <= c  between two fields
+    that the family's code itself compares.  Returns ({field: (lo, hi), "#facts": relations}, rounds)."""
     fields = [fd["n"] for fd in rec.get("fields", []) if fd.get("size") in (1, 2, 4, 8) and not fd.get("p") and not fd.get("count")]
     if writers is not None:
         # a field that is also stored to (or whose address is taken) outside the family, or through something other
@@ -117,20 +145,25 @@ def infer_invariant(members, types, rec, writers=None, soft=True):
     if not fields:
         return {}, 0
     names = {f.name for f, _ in members}
-    base = {}
+    cands = relation_candidates(members, set(fields))
+    base, facts = {}, set()
     for f, ids in members:
-        A = fx.FxAnalyzer(f, types, soft=soft, state_ids=ids).run()
+        A = fx.FxAnalyzer(f, types, soft=soft, state_ids=ids, candidates=cands).run()
         for fl, v in (A.exit_fields or {}).items():
             if fl in fields and v[0] is not None and v[1] is not None:
                 base[fl] = v if fl not in base else fx.iv_hull(base[fl], v)
+        if A.exit_fields is not None:
+            facts |= {c for c, ok in A.cand_ok.items() if ok}
     inv = dict(base)
     rounds = 0
-    while inv and rounds < 8:
+    while (inv or facts) and rounds < 8:
         rounds += 1
-        post = {n: inv for n in names}
-        new = dict(inv)
+        fl_facts = tuple(sorted(facts))
+        post = {n: dict(inv, **{"#facts": fl_facts}) for n in names}
+        new, newf = dict(inv), set(facts)
         for f, ids in members:
-            A = fx.FxAnalyzer(f, types, soft=soft, state_ids=ids, entry_fields=inv, callee_post=post).run()
+            A = fx.FxAnalyzer(f, types, soft=soft, state_ids=ids, entry_fields=inv, callee_post=post,
+                              entry_facts=fl_facts, candidates=fl_facts).run()
             ex = A.exit_fields
             if ex is None:
                 continue          # no exit reached (cannot happen for terminating code)
@@ -140,13 +173,17 @@ def infer_invariant(members, types, rec, writers=None, soft=True):
                     del new[fl]
                 else:
                     new[fl] = fx.iv_hull(new[fl], v)
-        if new == inv:
-            return inv, rounds
+            newf = {c for c in newf if A.cand_ok.get(c)}
+        if new == inv and newf == facts:
+            break
         # a bound that moved twice is not an invariant of this shape
         if rounds >= 4:
             new = {fl: v for fl, v in new.items() if inv.get(fl) == v}
-        inv = new
-    return inv, rounds
+        inv, facts = new, newf
+    out = dict(inv)
+    if facts:
+        out["#facts"] = tuple(sorted(facts))
+    return out, rounds
 
 
 def _types(prog):
@@ -184,7 +221,9 @@ def check_fixed_extent(res, config, floor):
         inv, rounds = infer_invariant(members, types, prog.records[rn], writers)
         invh, _ = infer_invariant(members, types, prog.records[rn], writers, soft=False)
         if inv:
-            invs["%s %s" % (unit, rn)] = {k: list(v) for k, v in sorted(inv.items())}
+            invs["%s %s" % (unit, rn)] = {k: (list(v) if k != "#facts" else
+                                              ["%s <= %d" % (" ".join("%+d*%s" % (cf, fl) for fl, cf in t), c) for t, c in v])
+                                          for k, v in sorted(inv.items())}
         post = {f.name: inv for f, _ in members}
         posth = {f.name: invh for f, _ in members}
         for f, ids in members:
